@@ -171,6 +171,9 @@ func RunCase(spec CaseSpec) (res CaseResult) {
 			res.Inconclusive = fmt.Sprintf("harness panic: %v", rec)
 		}
 		res.Violations = c.Violations
+		if c.IterLeaks > 0 {
+			st.Counters["harness.iterators-left-open-by-the-application-closed-at-commit"] += c.IterLeaks
+		}
 		res.Buckets = st.BucketList()
 		res.Counters = st.Counters
 		res.MsgOk, res.MsgRej = g.Ok, g.Rej
